@@ -40,6 +40,9 @@ fn main() {
     trace::silence_panics();
     let mut t = trace::Tracer::new(&out);
     t.only = arg(&args, "--only-sess");
+    // a panic that escapes a suite (a library call the driver did not wrap) must not look like a tool failure: it is recorded as an event of
+    // its own, which every trace specification reports as a deviation (unknown operation) with the panic message
+    let run = std::panic::catch_unwind(std::panic::AssertUnwindSafe(|| {
     match suite.as_str() {
         "sm3" => suites::sm3::drive(&mut t, &tier, seed),
         "zuc" => suites::zuc::drive_stream(&mut t, &tier, seed, plan),
@@ -66,6 +69,11 @@ fn main() {
             eprintln!("unknown suite {}", suite);
             std::process::exit(2);
         }
+    }
+    }));
+    if let Err(p) = run {
+        let msg = if let Some(s) = p.downcast_ref::<&str>() { s.to_string() } else if let Some(s) = p.downcast_ref::<String>() { s.clone() } else { "panic".to_string() };
+        t.emit("driver/panic", "driver.unguarded-panic", serde_json::json!({"prop": "C20", "outcome": "panic", "detail": msg.chars().take(200).collect::<String>()}));
     }
     t.flush();
     eprintln!("gmverif: suite {} tier {} seed {}: {} events", suite, tier, seed, t.count);
